@@ -203,8 +203,16 @@ def _run_own(ck):
     ck.floor('R-REDUCE', narm, 2)
     # scalar assigned to exactly one component
     asg = [n for n in hir.nodes(tc['hir']) if n.get('k') == 'Assign' and any(c.get('k') == 'MethodCall' and c['name'] == 'scalar_mut' for c in hir.calls(n['l']))]
-    ok = len(asg) == 1 and any(x.get('k') == 'Index' and hir.lit_int(x['i']) is not None for x in hir.nodes(asg[0]['l'])) and any(c.get('k') == 'MethodCall' and c['name'] == 'scalar' and hir.local_name(c['recv']) == 'g' for c in hir.calls(asg[0]['r'])) if asg else False
-    ck.ob('R-REDUCE', 'scalar-assigned-once', ok, ck.site(DEC + 'try_decompose_by_components'), 'exactly one component must receive the diagram\'s scalar (the others keep the 1 that subgraph_from_vertices gives them)')
+    from .. import hfacts
+    _prov, of_expr = hfacts.provenance(tc)
+    gparam = [p_['name'] for p_ in tc['params'] if p_.get('k') == 'Bind' and p_['name'] != 'self'][:1]
+    if not asg:
+        ok = None if any(c.get('k') == 'MethodCall' and c['name'] in ('scalar_mut', 'mul_scalar', 'set_scalar') for c in hir.calls(tc['hir'])) else False
+    else:
+        one_component = len(asg) == 1 and any(x.get('k') == 'Index' and hir.lit_int(x['i']) is not None for x in hir.nodes(asg[0]['l'])) and not any(True for par in hir.ancestors(asg[0], hir.parent_map(tc['hir'])) if par[0].get('k') in ('For', 'While', 'Loop', 'Closure'))
+        from_diagram = '.scalar' in of_expr(asg[0]['r'])
+        ok = bool(one_component and from_diagram)
+    ck.ob3('R-REDUCE', 'scalar-assigned-once', ok, ck.site(DEC + 'try_decompose_by_components'), 'exactly one component must receive the diagram\'s scalar (the others keep the 1 that subgraph_from_vertices gives them)')
     for be in ('vec_graph', 'hash_graph'):
         nk = hir.impl_method(facts, 'graph::GraphLike', be + '::Graph', 'new')
         ok = False
